@@ -29,6 +29,42 @@ CHECKS = {
    design_ref="DESIGN.md section 3, C19",
    note="Trusts porcupine v1.3.0 and the Go race detector; the life-cycle model leaves ID/Exited unconstrained while a Kill may be in flight.",
    technique="runtime monitoring: recorded-history linearizability (porcupine) + launch counters + Go race detector"),
+ "C05": dict(
+   category="fault_enumeration",
+   text="Fault enumeration by runtime monitor: 20 named ways a Start can fail after launch x 3 launch methods (real process via Cmd, custom runner around a real process, scripted in-process runner); the monitor reads the launched pid's /proc state at Start-return and while polling 5 s, counts runner Kill calls, times a later Kill, checks reaping and the temp socket directory.",
+   design_ref="DESIGN.md section 3, C05",
+   note="'shortly after' = 5 s; causes are only those every reading of C01 rejects; thorough repeats each cause 10x with seeded output delays.",
+   technique="runtime monitoring: /proc process-state monitor over enumerated start-failure causes"),
+ "C06": dict(
+   category="exploration",
+   text="Runtime monitor: rounds of 1-64 concurrently outstanding distinct ids on a real in-process net/rpc plugin connection (both directions, accept-first/dial-first, gaps inside the window, concurrent Dispense traffic, seeded jitter at the mux hook points, race detector on); each end records the unique token and PRNG payload it read; the offline oracle checks the dial(id)<->accept(id) bijection, byte-exact payloads, no failure inside the window, and that every Dispense reaches a distinct server object of the requested name.",
+   design_ref="DESIGN.md section 3, C06",
+   note="Both ends in one process via plugin.TestPluginRPCConn; gaps kept >= 1 s inside the 5 s window.",
+   technique="runtime monitoring: unique-token routing oracle over recorded accept/dial events, hook-point jitter, race detector"),
+ "C07": dict(
+   category="exploration",
+   text="Runtime monitor: rounds of 1-32 concurrently outstanding ids on a real in-process gRPC connection without multiplexing, both directions and orders; every accepted id serves a PingPong service answering '<id>/<nonce>', the dialler's first call must be answered by its own id's server; jitter at the grpcbroker hook points; race detector on.",
+   design_ref="DESIGN.md section 3, C07",
+   note="In-process pair via plugin.TestPluginGRPCConn (no TLS); TLS and address-translation paths are exercised through real subprocesses by other checks.",
+   technique="runtime monitoring: id/nonce echo oracle over brokered gRPC connections, hook-point jitter, race detector"),
+ "C08": dict(
+   category="exploration",
+   text="Runtime monitor: sequences of 20-50 (quick) / up to 200 (thorough) brokered connections established one at a time on a multiplexed in-process gRPC pair; per-side id counters (the same number is live in both directions), accept-first and dial-first, second connections to still-open listeners; after every establishment the control connection is pinged, the main service called and every earlier brokered connection re-pinged; seeded delays at the hook points between knock-listener start, listener registration, knock acceptance and stream acceptance.",
+   design_ref="DESIGN.md section 3, C08",
+   note="Concurrent establishment is documented as unsupported and never generated.",
+   technique="runtime monitoring: id/nonce echo + health re-check oracle over sequential multiplexed establishments, schedule perturbation at hook points"),
+ "C09": dict(
+   category="exploration",
+   text="Runtime monitor: histories of unmatched / duplicate / late / expiry-aligned broker operations (the expiry alignment is produced deterministically by blocking the expiry goroutine at a hook point) on MuxBroker, GRPCBroker and multiplexed GRPCBroker, each followed by matched pairs on fresh ids in both directions and a close; oracle: every call returns (nominal 5 s, hang threshold 40 s), unmatched calls fail, fresh pairs succeed, no goroutine with broker frames remains after all clients are closed. One genuine defect (stale knock under multiplexing) is recorded as a known finding keyed by its exact history.",
+   design_ref="DESIGN.md section 3, C09 and section 4 (D5, D6)",
+   note="Bounded-progress reading of liveness; thresholds are generous so a loaded machine cannot manufacture alarms.",
+   technique="runtime monitoring: bounded-progress oracle over fault histories with hook-controlled line-up, goroutine-dump leak monitor"),
+ "C13": dict(
+   category="exploration",
+   text="Runtime monitor: ~620 (quick) / ~6k (thorough) (file, hash function, checksum) triples incl. every single-bit flip and every proper prefix of the digest; the target is a script that writes a launch marker as its first action; the oracle computes the digest independently and requires launched <=> checksum == H(file) and the corresponding error.",
+   design_ref="DESIGN.md section 3, C13",
+   note="Digest computed with Go's crypto packages in the driver; launch observed through the marker file and exec.Cmd.Process.",
+   technique="runtime monitoring: launch-marker oracle against an independently computed digest, exhaustive single-bit/prefix sub-spaces"),
 }
 PENDING_REASON = "check not built yet in this revision; it is planned as a runtime monitor (see DESIGN.md section 3) and will move to 'checks' when it exists"
 
